@@ -40,19 +40,23 @@ inductive IdPath (ts : TS T D) : T → T → Prop where
   | refl (a : T) : IdPath ts a a
   | step {a b : T} (r : PRel T D) : r ∈ ts.idSucc a → IdPath ts r.dst b → IdPath ts a b
 
-/-- The local obligations (DESIGN §2) packaged for one type system. -/
-structure TS.WF (ts : TS T D) : Prop where
+/-- The local obligations (DESIGN §2) packaged for one type system, relative to an invariant `I`
+on data (the well-formedness / library hypotheses under which the obligations hold; `fun _ => True`
+when none are needed).  `closed` says accepted transformers keep the invariant. -/
+structure TS.WF (ts : TS T D) (I : D → Prop) : Prop where
   /-- acyclic: the height decreases along every relation (C14) -/
   height : ∀ n r, r ∈ ts.succ n → ts.h r.dst < ts.h n
   /-- L0: an identity relation's guard is the target's `contains`, its transformer the identity -/
   idGuard : ∀ n r, r ∈ ts.succ n → r.inferential = false →
       (∀ x, r.guard x = ts.contains r.dst x) ∧ (∀ x, r.xform x = x)
   /-- L1: membership is upward closed along identity relations (C16) -/
-  nested : ∀ n r, r ∈ ts.succ n → r.inferential = false → ∀ x, ts.contains r.dst x → ts.contains n x
+  nested : ∀ n r, r ∈ ts.succ n → r.inferential = false → ∀ x, I x → ts.contains r.dst x → ts.contains n x
   /-- L2: at most one outgoing relation accepts a member (C02) -/
-  mutex : ∀ n x, ts.contains n x → ((ts.succ n).filter (·.guard x)).length ≤ 1
+  mutex : ∀ n x, I x → ts.contains n x → ((ts.succ n).filter (·.guard x)).length ≤ 1
   /-- L3: an accepted inference relation lands inside its target (C03) -/
-  lands : ∀ n r x, r ∈ ts.succ n → ts.contains n x → r.guard x = true → ts.contains r.dst (r.xform x)
+  lands : ∀ n r x, r ∈ ts.succ n → I x → ts.contains n x → r.guard x = true → ts.contains r.dst (r.xform x)
+  /-- the invariant is kept by every accepted transformer -/
+  closed : ∀ n r x, r ∈ ts.succ n → I x → ts.contains n x → r.guard x = true → I (r.xform x)
 
 theorem mem_idSucc {ts : TS T D} {n : T} {r : PRel T D} :
     r ∈ ts.idSucc n ↔ r ∈ ts.succ n ∧ r.inferential = false := by
@@ -125,24 +129,24 @@ theorem plast_irrel (d d' : T) (p : List T) (h : p ≠ []) : plast d p = plast d
 
 /-! ### inference lands in its last type and stops for a reason (C03, first half) -/
 
-theorem infer_lands (ts : TS T D) (wf : ts.WF) :
-    ∀ f n x, ts.h n < f → ts.contains n x = true →
+theorem infer_lands (ts : TS T D) {I : D → Prop} (wf : ts.WF I) :
+    ∀ f n x, ts.h n < f → I x → ts.contains n x = true →
       let res := ptraverse ts.succ f n x
-      ts.contains (plast n res.2) res.1 = true ∧ pfirst (ts.succ (plast n res.2)) res.1 = none := by
+      ts.contains (plast n res.2) res.1 = true ∧ pfirst (ts.succ (plast n res.2)) res.1 = none ∧ I res.1 := by
   intro f
   induction f with
   | zero => intro n x h; omega
   | succ f ih =>
-    intro n x hh hc
+    intro n x hh hI hc
     simp only [ptraverse]
     cases hfa : pfirst (ts.succ n) x with
-    | none => simp [plast, hc, hfa]
+    | none => simp [plast, hc, hfa, hI]
     | some r =>
       have hmem : r ∈ ts.succ n := List.mem_of_find?_eq_some hfa
       have hg : r.guard x = true := by have := List.find?_some hfa; simpa using this
       have hlt := wf.height n r hmem
-      have hc' := wf.lands n r x hmem hc hg
-      have := ih r.dst (r.xform x) (by omega) hc'
+      have hc' := wf.lands n r x hmem hI hc hg
+      have := ih r.dst (r.xform x) (by omega) (wf.closed n r x hmem hI hc hg) hc'
       simp only
       rw [plast_cons_of_ne_nil _ _ _ (ptraverse_path_ne_nil _ _ _ _)]
       rw [plast_irrel n r.dst _ (ptraverse_path_ne_nil _ _ _ _)]
@@ -151,13 +155,13 @@ theorem infer_lands (ts : TS T D) (wf : ts.WF) :
 /-! ### a datum that sits maximally in `t` is detected as `t`, unchanged, from every identity
 ancestor of `t` (C03 second half, C04, C15, C16-chain) -/
 
-theorem idpath_contains (ts : TS T D) (wf : ts.WF) {a t : T} (hp : IdPath ts a t) (d : D)
-    (hT : ts.contains t d = true) : ts.contains a d = true := by
+theorem idpath_contains (ts : TS T D) {I : D → Prop} (wf : ts.WF I) {a t : T} (hp : IdPath ts a t) (d : D)
+    (hI : I d) (hT : ts.contains t d = true) : ts.contains a d = true := by
   induction hp with
   | refl => exact hT
   | step r hr _ ih =>
     have ⟨hm, hi⟩ := mem_idSucc.mp hr
-    exact wf.nested _ r hm hi d (ih hT)
+    exact wf.nested _ r hm hi d hI (ih hT)
 
 theorem idSucc_filter_le (ts : TS T D) (n : T) (x : D) :
     ((ts.idSucc n).filter (·.guard x)).length ≤ ((ts.succ n).filter (·.guard x)).length := by
@@ -185,8 +189,8 @@ theorem find?_unique_dst {α : Type} (p : α → Bool) (l : List α) (a : α)
   simp at hmem
   rw [hb, hmem]
 
-theorem detect_follows_chain (ts : TS T D) (wf : ts.WF) (t : T) (d : D)
-    (hT : ts.contains t d = true) (hmax : pfirst (ts.idSucc t) d = none) :
+theorem detect_follows_chain (ts : TS T D) {I : D → Prop} (wf : ts.WF I) (t : T) (d : D)
+    (hI : I d) (hT : ts.contains t d = true) (hmax : pfirst (ts.idSucc t) d = none) :
     ∀ a, IdPath ts a t → ∀ f, ts.h a < f →
       (ptraverse ts.idSucc f a d).1 = d ∧ plast a (ptraverse ts.idSucc f a d).2 = t := by
   intro a hp
@@ -203,11 +207,11 @@ theorem detect_follows_chain (ts : TS T D) (wf : ts.WF) (t : T) (d : D)
     | succ f =>
       have ⟨hm, hi⟩ := mem_idSucc.mp hr
       have ⟨hg, hx⟩ := wf.idGuard a r hm hi
-      have hcd : ts.contains r.dst d = true := idpath_contains ts wf hrest d hT
-      have hca : ts.contains a d = true := wf.nested a r hm hi d hcd
+      have hcd : ts.contains r.dst d = true := idpath_contains ts wf hrest d hI hT
+      have hca : ts.contains a d = true := wf.nested a r hm hi d hI hcd
       have hga : r.guard d = true := by rw [hg]; exact hcd
       have h1 : ((ts.idSucc a).filter (·.guard d)).length ≤ 1 :=
-        Nat.le_trans (idSucc_filter_le ts a d) (wf.mutex a d hca)
+        Nat.le_trans (idSucc_filter_le ts a d) (wf.mutex a d hI hca)
       have hfind : pfirst (ts.idSucc a) d = some r := find?_unique_dst _ _ r hr hga h1
       have hlt := wf.height a r hm
       have := ih hT hmax f (by omega)
@@ -228,24 +232,24 @@ theorem pfirst_idSucc_none_of_none (ts : TS T D) (n : T) (x : D)
 /-- **Inference is sound** (C03): the cast datum is in the inferred type, and detecting the cast
 datum — from the root, identity relations only — gives exactly the inferred type and leaves the
 datum unchanged. -/
-theorem infer_sound (ts : TS T D) (wf : ts.WF) (root : T) (hroot : ∀ t, IdPath ts root t)
-    (f : Nat) (hf : ts.h root < f) (x : D) (hx : ts.contains root x = true) :
+theorem infer_sound (ts : TS T D) {I : D → Prop} (wf : ts.WF I) (root : T) (hroot : ∀ t, IdPath ts root t)
+    (f : Nat) (hf : ts.h root < f) (x : D) (hI : I x) (hx : ts.contains root x = true) :
     let res := ptraverse ts.succ f root x
     let t := plast root res.2
     ts.contains t res.1 = true ∧
     (ptraverse ts.idSucc f root res.1).1 = res.1 ∧
     plast root (ptraverse ts.idSucc f root res.1).2 = t := by
   intro res t
-  have ⟨hc, hstop⟩ := infer_lands ts wf f root x hf hx
+  have ⟨hc, hstop, hI'⟩ := infer_lands ts wf f root x hf hI hx
   refine ⟨hc, ?_⟩
-  exact detect_follows_chain ts wf t res.1 hc (pfirst_idSucc_none_of_none ts t res.1 hstop)
+  exact detect_follows_chain ts wf t res.1 hI' hc (pfirst_idSucc_none_of_none ts t res.1 hstop)
     root (hroot t) f hf
 
 /-! ### fixpoint (C04): inferring again from the cast datum follows the identity chain only and
 returns the same datum -/
 
-theorem infer_follows_chain (ts : TS T D) (wf : ts.WF) (t : T) (d : D)
-    (hT : ts.contains t d = true) (hmax : pfirst (ts.succ t) d = none) :
+theorem infer_follows_chain (ts : TS T D) {I : D → Prop} (wf : ts.WF I) (t : T) (d : D)
+    (hI : I d) (hT : ts.contains t d = true) (hmax : pfirst (ts.succ t) d = none) :
     ∀ a, IdPath ts a t → ∀ f, ts.h a < f →
       (ptraverse ts.succ f a d).1 = d ∧ plast a (ptraverse ts.succ f a d).2 = t := by
   intro a hp
@@ -262,10 +266,10 @@ theorem infer_follows_chain (ts : TS T D) (wf : ts.WF) (t : T) (d : D)
     | succ f =>
       have ⟨hm, hi⟩ := mem_idSucc.mp hr
       have ⟨hg, hx⟩ := wf.idGuard a r hm hi
-      have hcd : ts.contains r.dst d = true := idpath_contains ts wf hrest d hT
-      have hca : ts.contains a d = true := wf.nested a r hm hi d hcd
+      have hcd : ts.contains r.dst d = true := idpath_contains ts wf hrest d hI hT
+      have hca : ts.contains a d = true := wf.nested a r hm hi d hI hcd
       have hga : r.guard d = true := by rw [hg]; exact hcd
-      have hfind : pfirst (ts.succ a) d = some r := find?_unique_dst _ _ r hm hga (wf.mutex a d hca)
+      have hfind : pfirst (ts.succ a) d = some r := find?_unique_dst _ _ r hm hga (wf.mutex a d hI hca)
       have hlt := wf.height a r hm
       have := ih hT hmax f (by omega)
       simp only [ptraverse, hfind, hx]
@@ -273,13 +277,13 @@ theorem infer_follows_chain (ts : TS T D) (wf : ts.WF) (t : T) (d : D)
       rw [plast_irrel a r.dst _ (ptraverse_path_ne_nil _ _ _ _)]
       exact this
 
-theorem infer_fixpoint (ts : TS T D) (wf : ts.WF) (root : T) (hroot : ∀ t, IdPath ts root t)
-    (f : Nat) (hf : ts.h root < f) (x : D) (hx : ts.contains root x = true) :
+theorem infer_fixpoint (ts : TS T D) {I : D → Prop} (wf : ts.WF I) (root : T) (hroot : ∀ t, IdPath ts root t)
+    (f : Nat) (hf : ts.h root < f) (x : D) (hI : I x) (hx : ts.contains root x = true) :
     let res := ptraverse ts.succ f root x
     (ptraverse ts.succ f root res.1).1 = res.1 ∧
     plast root (ptraverse ts.succ f root res.1).2 = plast root res.2 := by
   intro res
-  have ⟨hc, hstop⟩ := infer_lands ts wf f root x hf hx
-  exact infer_follows_chain ts wf _ res.1 hc hstop root (hroot _) f hf
+  have ⟨hc, hstop, hI'⟩ := infer_lands ts wf f root x hf hI hx
+  exact infer_follows_chain ts wf _ res.1 hI' hc hstop root (hroot _) f hf
 
 end V
